@@ -82,6 +82,10 @@ func execLateFile(sc *Scenario, env *Env, root string, refs []*lineRef, order []
 	if r.Bool(0.5) {
 		at = r.Range(1, min(n-1, 60)) // early: most runs have not started yet
 	}
+	// half of the time between the first and the last start of a run that reads the file (one before, one after)
+	if lo, hi, ok := startSpan(probe, order, func(li int) bool { return sc.Lines[li].World == wi }); ok && r.Bool(0.5) {
+		at = r.Range(lo+1, hi)
+	}
 	if s := sc.Params["arriveat"]; s != "" {
 		fmt.Sscan(s, &at)
 	}
@@ -525,6 +529,8 @@ func execReplaced(sc *Scenario, env *Env, root string, refs []*lineRef, order []
 		ds := byTask[multi[r.Intn(len(multi))]]
 		at = r.Range(ds[0]+1, ds[len(ds)-1])
 		res.add("reach.replacement-between-two-gets-of-one-run", 1)
+	} else if lo, hi, ok := startSpan(probe, order, reads); ok && mustSeeNew && r.Bool(0.7) {
+		at = r.Range(lo+1, hi) // some reader has started before, some reader starts afterwards
 	}
 	if s := sc.Params["replaceat"]; s != "" {
 		fmt.Sscan(s, &at)
@@ -604,4 +610,25 @@ func execReplaced(sc *Scenario, env *Env, root string, refs []*lineRef, order []
 func isLink(p string) bool {
 	fi, err := os.Lstat(p)
 	return err == nil && fi.Mode()&os.ModeSymlink != 0
+}
+
+// startSpan: the earliest and the latest decision at which a run of a selected line began to execute (probe execution).
+func startSpan(probe *BatchOutcome, order []int, sel func(li int) bool) (lo, hi int, ok bool) {
+	lo, hi = -1, -1
+	for pos, li := range order {
+		if !sel(li) {
+			continue
+		}
+		d, started := probe.StartDec[fmt.Sprintf("[%d]", pos)]
+		if !started {
+			continue
+		}
+		if lo < 0 || d < lo {
+			lo = d
+		}
+		if d > hi {
+			hi = d
+		}
+	}
+	return lo, hi, lo >= 0 && hi > lo
 }
